@@ -911,7 +911,12 @@ def fault_cases(rng, st, every=True):
     if not udp:
         # … and in a later message: never read, the transfer is complete
         yield emit(recs + [extra], "surplus-next-message", "any", sizes=rand_sizes(rng, L, empties=False) + [1])
-    # request faults
+    # request faults: what Inbound.__init__ refuses
+    if rdtype == "AXFR":
+        yield emit(recs, "init-axfr-over-udp", "must-raise", "ValueError", req={"udp": True})
+    else:
+        yield emit(recs, "init-ixfr-without-serial", "must-raise", "ValueError", req={"serial": None})
+    yield emit(recs, "init-bad-rdtype", "must-raise", "ValueError", req={"rdtype": rng.choice(["SOA", "ANY", "A"])})
     if rdtype == "IXFR":
         base = case["req"]["serial"]
         tgt = st["chain"][-1].serial
@@ -1044,8 +1049,8 @@ def replay(ctx: Ctx, obj: dict):
 
 
 LEVEL = {
-    "text": "Lean 4 theorems over an executable model of dns/xfr.py (Inbound.__init__/process_message/__exit__ as coded, driven by the message loop of dns.query._inbound_xfr, on an abstract zone with copy/commit/rollback transactions and RFC 1982 serial comparison): convergence of AXFR, multi-step IXFR, AXFR-style answers to IXFR, the up-to-date answer and UDP IXFR for every chain of versions and every division of the record stream into messages; for explicit fault transformers on valid streams an error is raised and the zone is the initial zone; an error is never reported after a commit (full statement for the repaired decision point, partial for the shipped code, whose defect D11 is proved and reproduced). Tied to the code by a differential correspondence check (state after every message, outcome, zone) over generated version chains, all chunkings of short streams, every single fault at every position, three zone classes x relativize, partly through wire format and _inbound_xfr itself.",
-    "note": "Trusted: Lean kernel + propext/Classical.choice/Quot.sound; the statements in lean/Props/C13.lean; the correspondence harness and its generators; name canonicalisation in the driver. TTL/class, TSIG and the CNAME exclusion rule are outside the model (TTL is checked by the direct oracle). Known finding D11: surplus rrsets after the final SOA in the same message are reported with FormError after the transfer was committed.",
-    "technique": "Lean 4 proof (state-machine refinement to set-level diff application, induction over version chains and message lists, atomicity invariant) + model-vs-implementation correspondence + direct oracle",
+    "text": "Lean 4 theorems over an executable model of dns/xfr.py (Inbound.__init__/process_message/__exit__ as coded, driven by the message loop of dns.query._inbound_xfr, on an abstract zone = set of (owner, type, rdata) with working-copy transactions, and RFC 1982 serial comparison): AXFR, multi-step IXFR (any chain of versions with their computed difference sequences), AXFR-style answers to IXFR, the up-to-date answer and UDP IXFR converge to the target version and serial for every division of the record stream into messages; explicit fault transformers on every accepted stream (truncation at every length, bad rcode/question on every message of every chunking, wrong base serial, serial going backwards, UseTCP, surplus after the final SOA, missing/swapped first SOA, a deletion sent twice) raise and leave the zone as it was; for all message sequences whatsoever an error is never reported after a commit in the repaired variant, and the shipped variant differs from it only by the proved defect D11 (commit, then FormError). Tied to the code by a differential correspondence check (state after every message, outcome class, zone) over generated version chains, all chunkings of short streams, every single fault at every position, three zone classes x relativize, partly through wire format and dns.query._inbound_xfr with a scripted socket; the direct oracle checks target equality incl. TTLs, must-raise classes, atomicity and that no write transaction is left open.",
+    "note": "Trusted: Lean kernel + propext/Classical.choice/Quot.sound; the statements in lean/Props/C13.lean; the correspondence harness and its generators; name canonicalisation (lower-casing) in the driver. TTL/class, TSIG, timeouts and the CNAME exclusion rule are outside the model (TTL is checked by the direct oracle). Protocol-undetectable faults (e.g. a dropped non-SOA record of an AXFR) are only claimed atomic and model-conformant. Known finding D11: surplus rrsets after the final SOA in the same message are reported with FormError after the transfer was committed.",
+    "technique": "Lean 4 proof (state-machine refinement to set-level difference application, induction over version chains and message lists, atomicity invariant, variant bisimulation) + model-vs-implementation correspondence + direct oracle",
     "design_ref": "DESIGN.md §7 C13",
 }
